@@ -71,9 +71,16 @@ enum Sem {
     Blk(Vec<u8>),
     Chars,
     Illformed,
+    /// outside what the property specifies
+    Unspecified,
 }
 
 fn sem_of(t: &[u8]) -> Sem {
+    // '#0' introduces IEEE 488.2 indefinite-length block data, which the property neither
+    // requires nor forbids: no expectation (such literals are not part of the pools)
+    if t.starts_with(b"#0") {
+        return Sem::Unspecified;
+    }
     if t.len() >= 3 && t[0] == b'#' && b"HhQqBb".contains(&t[1]) {
         let radix = match t[1] {
             b'H' | b'h' => 16,
@@ -125,12 +132,17 @@ enum Expect {
     InfOrReject(bool),
     /// the parameter list is not well-formed: no call, exactly one error
     Illformed,
+    /// the property says nothing about this literal
+    Unspecified,
 }
 
 fn expect(t: Ty, text: &[u8]) -> Expect {
     let sem = sem_of(text);
     if sem == Sem::Illformed {
         return Expect::Illformed;
+    }
+    if sem == Sem::Unspecified {
+        return Expect::Unspecified;
     }
     match t {
         Ty::UInt(_) | Ty::Int(_) => {
@@ -344,6 +356,7 @@ fn verdict_single(st: &mut St, name: &str, tyname: &str, t: Ty, lit: &[u8]) {
             st.illformed += 1;
             rejected_ok(&calls, &errs, &[])
         }
+        Expect::Unspecified => true,
     };
     st.distinct.add(calls.first().map(|c| c.iter().fold(7u64, |h, &b| h.wrapping_mul(131).wrapping_add(b as u64))).unwrap_or(errs.first().copied().unwrap_or(0) as u64));
     if !ok {
@@ -362,6 +375,7 @@ fn verdict_single(st: &mut St, name: &str, tyname: &str, t: Ty, lit: &[u8]) {
             Sem::Blk(_) => "block",
             Sem::Chars => "characters",
             Sem::Illformed => "ill-formed",
+            Sem::Unspecified => "unspecified",
         };
         let f = vec![("type", tyname.to_string()), ("kind", what.to_string()), ("literal_kind", sem.to_string())];
         st.groups.add("single-parameter", &f, (lit.len(), lit), || {
@@ -625,7 +639,7 @@ fn verdict_multi(st: &mut St, name: &str, tys: &[&str], lits: &[&[u8]]) {
                     all_deliver = false;
                     any_number = true;
                 }
-                Expect::Either(..) | Expect::InfOrReject(_) => return, // not used in the multi-parameter pools
+                Expect::Either(..) | Expect::InfOrReject(_) | Expect::Unspecified => return, // not used in the multi-parameter pools
             }
         }
     }
